@@ -23,6 +23,7 @@ fn dispatch(op: &str, args: &[String]) -> String {
         "pipeline" => ops_xml::pipeline(args),
         "roundtrip" => ops_xml::roundtrip(args),
         "print" => ops_xml::print(args),
+        "sinks" => ops_xml::sinks(args),
         "attrs" => ops_xml::attrs(args),
         "chardata" => ops_dom::chardata(args),
         "dom" => ops_domhist::dom(args),
@@ -31,6 +32,7 @@ fn dispatch(op: &str, args: &[String]) -> String {
         "nameok" => ops_names::nameok(args),
         "query" => ops_xpath::query(args),
         "qfresh" => ops_xpath::qfresh(args),
+        "qswitch" => ops_xpath::qswitch(args),
         _ => "bad-op".to_string(),
     }
 }
